@@ -216,7 +216,10 @@ def close(a, b, rtol=1e-9, atol=1e-12):
 
 
 def from_tla(v):
-    """<<<<n,d>>,<<n,d>>>> as decoded JSON -> Cx, or None when undefined."""
+    """<<<<n,d>>,<<n,d>>>> as decoded JSON -> Cx, or None when undefined.  A truncated Taylor
+    series <<z0, z1, z2, z3>> (jets variant) is read as its value z0."""
+    if len(v) == 4:
+        v = v[0]
     (rn, rd), (in_, id_) = v
     if rd == 0 or id_ == 0:
         return None
